@@ -324,7 +324,8 @@ def default_modifier(op, **kwargs):
             pass  # nothing to do
         else:
             # update T operator
-            op = operators.T(op.alpha * att, op.phi, name=op.name, duration=op.duration)
+            alpha, att = common.expand_arrays(op.alpha, att, append=True)
+            op = operators.T(alpha * att, op.phi, name=op.name, duration=op.duration)
             op.name += "#"
 
     if np.any(op.duration > 0):
